@@ -122,7 +122,7 @@ NoSharedInvList ==
                (k1 # k2 /\ cl[k1][sel] # 0 /\ (Stmt(k1).dbc \/ Stmt(k2).dbc)) => cl[k1][sel] # cl[k2][sel]
 
 (* ---- C14: a stack of contract decorators has exactly one checker; the original stays reachable ---- *)
-DeclForeign(k, name) == Len(Sel(MemberDecl(k, name).decos, 1, "foreign"))
+DeclForeign(k, name) == Len(Sel(MemberDecl(k, name).decos, 1, "foreign")) + Len(Sel(MemberDecl(k, name).decos, 1, "foreign_bare"))
 SingleChecker ==
   \A k \in Created : \A name \in DOMAIN cl[k].d :
      LET f == cl[k].d[name].f IN f # 0 => (CountCheckers(fo, f) <= 1 /\ fo[Bottom(fo, f)].k = "plain")
